@@ -115,7 +115,8 @@ TEXTS = {
         'note': ('The instruction generator is covered by two theorems over ALL plan entries (no consumer position is lost; '
                  'no instruction is invented; the three vertical rewrites are the only deviations and only at position 0 '
                  'against an ADD_DEQUANTIZE producer); operand-level whole-run theorems of the performer cover untouched operands, '
-                 'in-place quantization and single insertions. Chains of re-targeted insertions on one tensor are validated '
+                 'in-place quantization and insertions that are not re-targeted (any number per tensor, disjoint consumer lists). '
+                 'An insertion re-targeted onto an earlier one (overlapping consumer lists) is validated '
                  'by correspondence + oracle, not proved. Axioms: none.'),
     },
     'C04': {
